@@ -5,6 +5,9 @@ them out of the method's domain or not matrices at all, so the call raises) with
 positions.  Oracle (from the property's text, independent of the model): every call returns, bit for bit,
 what a FRESH object built with the same parameters (and seed) returns for that matrix; the probe's outputs
 agree at every position; a twin object fed the same sequence agrees call by call; two fresh objects agree.
+The same oracle on two more kinds of history: construction histories (objects of the same class built with OTHER parameters
+before the object under test: a default shared between instances shows only there) and streams of throw-away matrices (no
+matrix outlives its call: state keyed by something recyclable such as id(dm) collides only there).
 Every run (the sequence, the twin, each fresh reference) happens in its OWN process forked from a worker that has only
 imported the library and never called it, so state kept at module or class level (a memo dict, a process-wide random
 generator) cannot leak into the reference outputs.
@@ -55,7 +58,21 @@ RULE = (
     "goes below 0 and the decision maker rejects the mutant), (c) FilterGE / FilterLE + TOPSIS / RatioMOORA with "
     "allow_missing_alternatives=False and the threshold at the worst row's own value (its worsening drops it); the failing "
     "matrix is fed once or twice, the probe sits at position 0 (70%), right after the failing call and at the end.  Thorough adds, per spec, ALL sequences of length <= 4 over a pool of 3 matrices (one refused).  "
-    "Non-trivial: >= 2 successful calls on >= 2 different matrices and the probe at >= 2 positions; distinct by case hash."
+    "CONSTRUCTION HISTORIES (kind ctor, >= 90 quick; every class whose constructor takes hyper-parameters - the mkagg / mktransformer "
+    "classes with hyper-parameters 6x per round, every built-in transformer with parameters, TOPSIS / ELECTRE1 / ELECTRE2 / SIMUS, "
+    "RankInvariantChecker): in ONE process [an object with parameters A (80%)], 1-3 objects of the same class with OTHER given "
+    "parameters B (constructor, or first.copy(**B) 40%; called on the matrix 70%), then an object with A again, alone or (40%) as a "
+    "step of a new pipeline; A = nothing given (declared defaults, 50% where the constructor allows it) or a random subset of the "
+    "hyper-parameters; the last object, the first one and the first one asked again afterwards must hold the parameters and return "
+    "the output of the ONLY object built in a fresh process by the same constructor call, and every parameter not given must equal "
+    "(==) the default the constructor's signature declares.  STREAMS OF THROW-AWAY MATRICES (kind stream, >= 12 quick): one "
+    "long-lived object - SumScaler->WSM, MinMaxScaler->TOPSIS, InvertMinimize->VectorScaler->SumScaler->TOPSIS, "
+    "NegateMinimize->StandarScaler->RatioMOORA (evaluate and transform), a random pipeline, a random transformer, a random decision "
+    "maker, a decorated class - is fed 100-300 small matrices of different content (fixed shape and labels 60%, varying otherwise; "
+    "0-10% out of domain) none of which outlives its call (del / del + gc.collect() / built inline in the call / name bound again), "
+    "a probe kept by the caller at 3-5 positions; every output is compared with a fresh object's (own process) for that content.  "
+    "Non-trivial: >= 2 successful calls on >= 2 different matrices and the probe at >= 2 positions (ctor: the last call accepted and "
+    ">= 1 other object in between; stream: >= 50 accepted calls, >= 25 different outputs); distinct by case hash."
 )
 ASSUMPTIONS = [
     "bit-for-bit = sha1 over dtype, shape and bytes of every array reachable from the output (values, every e_ entry, "
@@ -63,6 +80,8 @@ ASSUMPTIONS = [
     "BLAS / LAPACK / CBC are run single-threaded (OMP_NUM_THREADS=1) so that they are deterministic themselves",
     "a fresh object is a new object in a new process (os.fork of a process that imported skcriteria but never called a "
     "method); the sequence under test, its twin and every reference output each get their own process",
+    "whether two throw-away matrices of a stream get the same address is up to the allocator: a stream case is a statistical "
+    "probe (100-300 matrices, four ways of dropping them), its replay re-runs the whole stream",
     "IterativeImputer is given an integer random_state whenever its configuration draws random numbers; a "
     "numpy Generator / RandomState INSTANCE passed as a parameter is the caller's state and is not generated",
     "the scanner behind Generated.selfWrites is complete for the ways the code stores state (rules in the generated "
@@ -394,6 +413,294 @@ def random_user_spec(rng):
     if cls == "UserScale" and rng.random() < 0.7:
         kw = {"k": rng.choice([2.0, 0.5]), "shift": rng.choice([0.0, 1.0])}
     return {"k": "user", "cls": cls, "kw": kw}
+
+
+# ----------------------------------------------------------------------------- construction histories
+# "Two method objects built with the same parameters behave identically" - whatever was built BEFORE them: an object, then
+# objects of the same class with OTHER parameters (constructor or .copy()), then an object with the first one's parameters
+# again.  A default that is shared between instances (a mutable default argument, the dict of a decorator's closure, a
+# class attribute written by __init__) shows in the last object only.
+
+# hyper-parameters declared by the decorated classes of _user_classes(): name -> (declared default, other values)
+USER_HP = {
+    "UserAgg": {"alpha": (1.0, [0.5, 3.0, 2.0, -1.0]), "flip": (False, [True])},
+    "UserScale": {"k": (2.0, [0.5, 4.0, -1.0]), "shift": (0.0, [1.0, -0.25])},
+}
+REQUIRED_ARGS = ("target", "criteria_filters")  # constructor arguments without a default
+PARAM_AGGS = ["TOPSIS", "ELECTRE1", "ELECTRE2", "SIMUS"]
+
+
+def _ctor_kw(spec):
+    """the keyword arguments a spec hands to the constructor (None: not a plain keyword construction)"""
+    k = spec["k"]
+    if k == "agg":
+        return {a: v for a, v in spec["spec"].items() if a != "name"}
+    if k in ("tr", "user"):
+        return _dekw(spec.get("kw", {}))
+    return None
+
+
+def _hp_classes():
+    """(kind, class) of every class of the specs whose constructor takes hyper-parameters"""
+    import random
+
+    probe = random.Random(0)
+    out = [("user", c) for c in USER_HP]
+    out += [("tr", c) for c in TR if any(random_tr_spec(probe, c)["kw"] for _ in range(4))]
+    out += [("agg", n) for n in PARAM_AGGS]
+    out += [("ric", "RankInvariantChecker")]
+    return out
+
+
+def _ctor_base(rng, kind, cls):
+    """the parameters of the object that is built first and last: the declared defaults (nothing given) half of the time
+    where the constructor allows it, a random subset of the hyper-parameters otherwise"""
+    if kind == "user":
+        hp = USER_HP[cls]
+        given = rng.sample(sorted(hp), rng.randint(1, len(hp))) if rng.random() < 0.5 else []
+        return {"k": "user", "cls": cls, "kw": {a: rng.choice([hp[a][0]] + hp[a][1]) for a in given}}
+    if kind == "tr":
+        spec = random_tr_spec(rng, cls)
+        optional = [a for a in spec["kw"] if a not in REQUIRED_ARGS]
+        drop = optional if rng.random() < 0.5 else rng.sample(optional, rng.randint(0, len(optional)))
+        spec["kw"] = {a: v for a, v in spec["kw"].items() if a not in drop}
+        return spec
+    if kind == "agg":
+        if rng.random() < 0.5:
+            return {"k": "agg", "spec": {"name": cls}}
+        return {"k": "agg", "spec": M.random_spec(rng, [cls])}
+    return random_ric_spec(rng)
+
+
+def _ctor_other(rng, kind, cls, base):
+    """a spec of the same class whose given hyper-parameters differ from `base`'s (None if none was drawn)"""
+    for _ in range(20):
+        if kind == "user":
+            hp = USER_HP[cls]
+            given = rng.sample(sorted(hp), rng.randint(1, len(hp)))
+            spec = {"k": "user", "cls": cls, "kw": {a: rng.choice(hp[a][1]) for a in given}}  # non-default values only
+        elif kind == "tr":
+            spec = random_tr_spec(rng, cls)
+        elif kind == "agg":
+            spec = {"k": "agg", "spec": M.random_spec(rng, [cls])}
+        else:
+            spec = random_ric_spec(rng)
+            spec["dmaker"] = base["dmaker"]
+        a, b = _ctor_kw(spec), _ctor_kw(base)
+        if (a is None and spec != base) or (a is not None and a and any(b.get(x, "<default>") != v for x, v in a.items())):
+            return spec
+    return None
+
+
+def gen_ctor_case(rng, kind, cls):
+    base = _ctor_base(rng, kind, cls)
+    between = []
+    for _ in range(rng.choice([1, 1, 2, 3])):
+        o = _ctor_other(rng, kind, cls, base)
+        if o is not None:
+            between.append({"spec": o, "via": "new"})
+    first = rng.random() < 0.8 or not between
+    if first and _ctor_kw(base) is not None:
+        for b in between:
+            if rng.random() < 0.4:
+                b["via"] = "copy"  # first.copy(hp=...)
+    wrap = None
+    if rng.random() < 0.4 and kind != "ric":
+        if spec_family(base) == "agg" or (kind == "user" and "Agg" in cls):
+            wrap = {"pre": [{"k": "tr", "cls": "SumScaler", "kw": {"target": rng.choice(["both", "weights"])}}], "post": None,
+                    "op": "evaluate"}
+        else:
+            wrap = {"pre": [], "post": {"k": "agg", "spec": rng.choice([{"name": "TOPSIS", "metric": "euclidean"}, {"name": "RatioMOORA"}])},
+                    "op": rng.choice(["evaluate", "transform"])}
+    mc = in_domain(rng, base, n=rng.randint(3, 4) if spec_family(base) == "filter" else None)
+    if spec_family(base) == "filter":
+        mc["criteria"] = CRITS[: len(mc["matrix"][0])]
+    return {"kind": "ctor", "spec": base, "first": first, "between": between, "wrap": wrap, "mc": mc,
+            "call_between": rng.random() < 0.7}
+
+
+def _wrapped(obj, op, wrap):
+    """the object alone, or as a step of a new pipeline"""
+    if not wrap:
+        return obj, op
+    from skcriteria.pipeline import mkpipe
+
+    with M.quiet():
+        steps = [build(s)[0] for s in wrap["pre"]] + [obj] + ([build(wrap["post"])[0]] if wrap["post"] else [])
+        return mkpipe(*steps), wrap["op"]
+
+
+def _repr(v):
+    import re
+
+    return re.sub(r" at 0x[0-9a-fA-F]+", "", repr(v))[:80]
+
+
+def _params(obj):
+    """{parameter: [digest, short repr]} of what the object says it was built with"""
+    try:
+        return {k: [digest(v), _repr(v)] for k, v in sorted(obj.get_parameters().items())}
+    except Exception as e:
+        return {"<get_parameters>": [type(e).__name__, str(e)[:80]]}
+
+
+def _declared_defaults(obj, given):
+    """the parameters that were NOT given, with the default the constructor's signature declares and what the object holds:
+    {parameter: [declared, held, equal?]}; equal is Python's `==` (a constructor may normalise (0, 1) to (0.0, 1.0)) or
+    identical bits (nan)"""
+    import inspect
+
+    out = {}
+    try:
+        sig = inspect.signature(type(obj).__init__)
+        held = obj.get_parameters()
+    except Exception:
+        return out
+    for name, p in sig.parameters.items():
+        if name in held and name not in given and p.default is not inspect.Parameter.empty:
+            try:
+                eq = digest(p.default) == digest(held[name]) or bool(p.default == held[name])
+            except Exception:
+                eq = False
+            out[name] = [_repr(p.default), _repr(held[name]), eq]
+    return out
+
+
+def ctor_reference(case):
+    """a fresh process in which the object under test is the ONLY object of its class ever built"""
+    obj, op = build(case["spec"])
+    given = _ctor_kw(case["spec"])
+    target, top = _wrapped(obj, op, case.get("wrap"))
+    return {"params": _params(obj), "declared": _declared_defaults(obj, given) if given is not None else {},
+            "out": call(target, top, mk_input(case["mc"]))}
+
+
+def ctor_sequence(case):
+    """[an object with the parameters under test], objects of the same class with OTHER parameters, then the object under test"""
+    spec, mc, wrap = case["spec"], case["mc"], case.get("wrap")
+    res = {"between": []}
+    obj1 = None
+    if case["first"]:
+        obj1, op1 = build(spec)
+        res["params1"] = _params(obj1)
+        res["out1"] = call(*_wrapped(obj1, op1, wrap), mk_input(mc))
+    for b in case["between"]:
+        with M.quiet():
+            if b["via"] == "copy":
+                ob, opb = obj1.copy(**_ctor_kw(b["spec"])), op1
+            else:
+                ob, opb = build(b["spec"])
+        res["between"].append({"params": _params(ob), "out": call(ob, opb, mk_input(mc)) if case.get("call_between") else None})
+    obj3, op3 = build(spec)
+    res["params3"] = _params(obj3)
+    given = _ctor_kw(spec)
+    res["declared3"] = _declared_defaults(obj3, given) if given is not None else {}
+    res["out3"] = call(*_wrapped(obj3, op3, wrap), mk_input(mc))
+    if obj1 is not None:  # the objects built earlier are what they were
+        res["params1_again"] = _params(obj1)
+        res["out1_again"] = call(*_wrapped(obj1, op1, wrap), mk_input(mc))
+    return res
+
+
+# ----------------------------------------------------------------------------- streams of throw-away matrices
+# The matrices of a `hist` case all live until the run ends, so nothing that identifies a matrix by something RECYCLABLE (its
+# id(), the id of one of its arrays, a weak reference's slot) can ever confuse two of them.  Here one long-lived object is fed
+# many small matrices of different content that nobody keeps: built, passed to the object, dropped.
+
+STREAM_FIXED = [
+    {"k": "pipe", "steps": [{"k": "tr", "cls": "SumScaler", "kw": {"target": "both"}}, {"k": "agg", "spec": {"name": "WSM"}}],
+     "op": "evaluate"},
+    {"k": "pipe", "steps": [{"k": "tr", "cls": "MinMaxScaler", "kw": {"target": "matrix"}},
+                            {"k": "agg", "spec": {"name": "TOPSIS", "metric": "euclidean"}}], "op": "evaluate"},
+    {"k": "pipe", "steps": [{"k": "tr", "cls": "InvertMinimize", "kw": {}}, {"k": "tr", "cls": "VectorScaler", "kw": {"target": "matrix"}},
+                            {"k": "tr", "cls": "SumScaler", "kw": {"target": "weights"}},
+                            {"k": "agg", "spec": {"name": "TOPSIS", "metric": "euclidean"}}], "op": "evaluate"},
+    {"k": "pipe", "steps": [{"k": "tr", "cls": "NegateMinimize", "kw": {}}, {"k": "tr", "cls": "StandarScaler", "kw": {"target": "matrix"}},
+                            {"k": "agg", "spec": {"name": "RatioMOORA"}}], "op": "transform"},
+]
+STREAM_CHEAP_TR = [c for c in TR if c not in ("IterativeImputer", "KNNImputer")]
+STREAM_DROPS = ["del", "del+gc", "inline", "rebind"]
+
+
+def gen_stream_case(rng, t):
+    which = t % 8
+    if which < len(STREAM_FIXED):
+        spec = json.loads(json.dumps(STREAM_FIXED[which]))
+        if rng.random() < 0.3:
+            spec["op"] = "transform" if spec["op"] == "evaluate" else "evaluate"
+        n = rng.randint(200, 300)
+    elif which == 4:
+        spec = random_pipe_spec(rng)
+        for _ in range(20):
+            if not any(s.get("cls") in ("IterativeImputer", "KNNImputer") for s in spec["steps"]):
+                break
+            spec = random_pipe_spec(rng)
+        n = rng.randint(100, 200)
+    elif which == 5:
+        spec = random_tr_spec(rng, rng.choice(STREAM_CHEAP_TR))
+        n = rng.randint(100, 200)
+    elif which == 6:
+        spec = {"k": "agg", "spec": M.random_spec(rng, [a for a in AGG_NAMES if a != "SIMUS"])}
+        n = rng.randint(100, 200)
+    else:
+        spec = random_user_spec(rng)
+        n = rng.randint(100, 200)
+    shape = [rng.randint(3, 5), rng.randint(2, 4)] if rng.random() < 0.6 else None
+    if spec_family(spec) == "filter" and shape:
+        shape[1] = max(shape[1], 3)
+    if spec_family(spec) == "imputer" and shape:
+        shape[0] = max(shape[0], 4)
+    probe_at = sorted({0, n} | {rng.randrange(1, n) for _ in range(rng.randint(1, 3))})
+    return {"kind": "stream", "spec": spec, "n": n, "mseed": rng.randint(0, 2 ** 31 - 1), "shape": shape,
+            "drop": STREAM_DROPS[t % len(STREAM_DROPS)] if t < 2 * len(STREAM_DROPS) else rng.choice(STREAM_DROPS),
+            "ood_rate": rng.choice([0.0, 0.05, 0.1]), "probe_at": probe_at}
+
+
+def stream_matrix(case, k):
+    """matrix #k of a stream (k = -1: the probe, which the caller keeps): a function of the case alone"""
+    import random
+
+    rng = random.Random(case["mseed"] * 1000003 + k + 1)
+    spec, shape = case["spec"], case.get("shape")
+    if k >= 0 and rng.random() < case.get("ood_rate", 0.0):
+        mc = out_of_domain(rng, spec)
+    else:
+        mc = in_domain(rng, spec, m=shape[0], n=shape[1]) if shape else in_domain(rng, spec)
+    if "matrix" in mc and shape and "ood" not in mc:
+        # the same labels on every matrix of a fixed-shape stream: an output that belongs to ANOTHER matrix looks valid
+        mc["criteria"] = CRITS[: len(mc["matrix"][0])]
+        mc["alternatives"] = ["A%d" % i for i in range(len(mc["matrix"]))]
+    return mc
+
+
+def run_stream(case):
+    """ONE object fed matrix after matrix; no matrix but the probe outlives its call"""
+    import gc
+
+    obj, op = build(case["spec"])
+    mats = [stream_matrix(case, k) for k in range(case["n"])]  # plain lists of numbers; the DecisionMatrix objects are made below
+    probe = mk_input(stream_matrix(case, -1))
+    at, mode = set(case["probe_at"]), case["drop"]
+    outs, probes = [], {}
+    gc.collect()
+    gc.freeze()  # what exists now is not scanned again: a full collection per call stays cheap
+    dm = None
+    for k, mc in enumerate(mats):
+        if k in at:
+            probes[str(k)] = call(obj, op, probe)
+        if mode == "inline":
+            outs.append(call(obj, op, mk_input(mc)))
+        elif mode == "rebind":
+            dm = mk_input(mc)  # the previous matrix dies when the name is bound again
+            outs.append(call(obj, op, dm))
+        else:
+            dm = mk_input(mc)
+            outs.append(call(obj, op, dm))
+            del dm
+            if mode == "del+gc":
+                gc.collect()
+    probes[str(len(mats))] = call(obj, op, probe)
+    return outs, probes
 
 
 IMPUTERS = ("SimpleImputer", "IterativeImputer", "KNNImputer")
@@ -963,6 +1270,20 @@ def gen(ctx, search=False):
     step = max(1, len(cases) // n_mid)
     for t in range(n_mid):
         cases.insert(min(len(cases), 2 + t * (step + 1)), gen_midway_case(rng, MIDWAY[t % len(MIDWAY)]))
+    # construction histories: every class with hyper-parameters, the decorated ones several times
+    hp = _hp_classes()
+    n_ctor = 400 if search else ctx.n(90, 900)
+    t = 0
+    while t < n_ctor:
+        for kind, cls in hp:
+            for _ in range(6 if kind == "user" else 1):
+                cases.append(gen_ctor_case(rng, kind, cls))
+                t += 1
+    # streams of throw-away matrices through one long-lived object (spread over the list: they are the longest cases)
+    n_stream = 32 if search else ctx.n(12, 48)
+    step = max(1, len(cases) // n_stream)
+    for t in range(n_stream):
+        cases.insert(min(len(cases), 5 + t * (step + 1)), gen_stream_case(rng, t))
     if ctx.thorough and not search:
         # every sequence of length <= 4 over a pool of three matrices (two accepted, of different shape; one refused)
         for spec in spec_round(rng):
@@ -1017,7 +1338,7 @@ def observe(case):
         seq, at = final_sequence(case["hist"], case["probe"], case["positions"])
         return {"seq": seq, "at": at, "py": {s: _toy(s, seq) for s in ("stateless", "caching", "counting")},
                 "fresh": {s: _toy(s, [case["probe"]])[0][0] for s in ("stateless", "caching", "counting")}}
-    spec, pool = case["spec"], case["pool"]
+    spec, pool = case["spec"], case.get("pool")
     preload()
     with M.quiet():
         if kind == "hist":
@@ -1029,6 +1350,25 @@ def observe(case):
             twin, _ = in_child(run_sequence, spec, pool, seq, None, False)
             return {"seq": seq, "at": at, "outs": outs, "twin": twin, "changes": changes,
                     "fresh": {str(i): fresh[i] for i in used}, "fresh2": {str(i): fresh2[i] for i in used}}
+        if kind == "ctor":
+            return {"ref": in_child(ctor_reference, case), "ref2": in_child(ctor_reference, case), "seq": in_child(ctor_sequence, case)}
+        if kind == "stream":
+            mats = [stream_matrix(case, k) for k in range(case["n"])]
+            probe = stream_matrix(case, -1)
+            outs, probes = in_child(run_stream, case)
+            fresh = [in_child(fresh_output, spec, mc) for mc in mats]
+            bad = []
+            for k, (o, f) in enumerate(zip(outs, fresh)):
+                if not _same(o, f):
+                    if len(bad) < 3:
+                        earlier = [j for j in range(k) if "ok" in o and fresh[j].get("ok") == o["ok"]]
+                        bad.append({"call": k, "matrix": mats[k], "got": o, "fresh": f, "fresh_again": in_child(fresh_output, spec, mats[k]),
+                                    "is_the_output_of_call": earlier[-1] if earlier else None})
+                    else:
+                        bad.append({"call": k})
+            return {"n": len(outs), "n_ok": sum(1 for o in outs if "ok" in o), "n_distinct": len({o.get("ok") for o in outs if "ok" in o}),
+                    "errs": sorted({o["err"] for o in outs if "err" in o}), "n_bad": len(bad), "bad": bad[:3],
+                    "bad_calls": [b["call"] for b in bad][:40], "probe": probes, "probe_fresh": in_child(fresh_output, spec, probe)}
         if kind == "exh":
             fresh = {i: in_child(fresh_output, spec, pool[i]) for i in range(len(pool))}
             bad, nseq, ncalls, changed = [], 0, 0, []
@@ -1119,6 +1459,10 @@ def judge(case, obs, replies):
             corr(f"{name}: a call changed the object (model premise `(step o d).1 = o`): {c['changed']} at call #{c['call']} of {c['seq']}",
                  [], c["changed"])
         return out
+    if kind == "ctor":
+        return out + judge_ctor(case, obs, name)
+    if kind == "stream":
+        return out + judge_stream(case, obs, name)
     seq, at, outs = obs["seq"], obs["at"], obs["outs"]
     fresh = {int(k): v for k, v in obs["fresh"].items()}
     fresh2 = {int(k): v for k, v in obs["fresh2"].items()}
@@ -1149,7 +1493,77 @@ def judge(case, obs, replies):
     return out
 
 
+def _pfinding(what, expected=None, observed=None):
+    return {"kind": "property", "what": what, "expected": expected, "observed": observed}
+
+
+def _show_params(p):
+    return {k: v[1] for k, v in p.items()}
+
+
+def judge_ctor(case, obs, name):
+    """two objects built with the same parameters behave identically - whatever else was built before the second one"""
+    out = []
+    ref, seq = obs["ref"], obs["seq"]
+    given = _ctor_kw(case["spec"])
+    built = f"{name}({', '.join(f'{k}={_repr(v)}' for k, v in (given or {}).items())})"
+    if case.get("wrap"):
+        built += " as a step of a new pipeline ." + case["wrap"]["op"]
+    hist = "; ".join(("first.copy" if b["via"] == "copy" else name) + "(" +
+                     ", ".join(f"{k}={_repr(v)}" for k, v in (_ctor_kw(b["spec"]) or {"...": "other parameters"}).items()) + ")"
+                     for b in case["between"])
+    if not _same(ref["out"], obs["ref2"]["out"]) or ref["params"] != obs["ref2"]["params"]:
+        return [_pfinding(f"{built}: two objects built with the same parameters, each the only object of its process, disagree",
+                          [ref["out"], _show_params(ref["params"])], [obs["ref2"]["out"], _show_params(obs["ref2"]["params"])])]
+    for key, who in (("3", f"the object built AFTER {hist}"), ("1", "the first object of the process"),
+                     ("1_again", f"the object built BEFORE {hist}, asked again afterwards")):
+        if "out" + key not in seq:
+            continue
+        if seq["params" + key] != ref["params"]:
+            out.append(_pfinding(f"{built}: {who} does not hold the parameters that the only object of a fresh process, built by the "
+                                 "same constructor call, holds", _show_params(ref["params"]), _show_params(seq["params" + key])))
+            break
+        if not _same(seq["out" + key], ref["out"]):
+            out.append(_pfinding(f"{built}: {who} does not return what the only object of a fresh process, built by the same "
+                                 "constructor call, returns for the same matrix", ref["out"], seq["out" + key]))
+            break
+    for pname, (declared, held, eq) in seq["declared3"].items():
+        if not eq:
+            out.append(_pfinding(f"{built}: parameter {pname!r} was not given and the constructor declares the default {declared}, but "
+                                 f"the object built after {hist} holds {held}", declared, held))
+            break
+    return out
+
+
+def judge_stream(case, obs, name):
+    """every call on the long-lived object returns what a fresh object returns for that matrix content"""
+    out = []
+    for b in obs["bad"][:1]:
+        if not _same(b["fresh"], b["fresh_again"]):
+            out.append(_pfinding(f"{name}: two fresh objects disagree on matrix #{b['call']} of the stream", b["fresh"], b["fresh_again"]))
+            break
+        stale = b.get("is_the_output_of_call")
+        out.append(_pfinding(
+            f"{name}: one long-lived object fed {obs['n']} throw-away matrices ({case['drop']}; no matrix kept after its call): call "
+            f"#{b['call']} differs from what a fresh object built with the same parameters returns for that matrix content"
+            + (f" - it is, bit for bit, what matrix #{stale} of the stream gives" if stale is not None else "")
+            + f"; {obs['n_bad']} of {obs['n']} calls differ (calls {obs['bad_calls'][:12]}); matrix: "
+            + json.dumps({k: b['matrix'].get(k) for k in ('matrix', 'objectives', 'weights', 'criteria', 'garbage') if k in b['matrix']}),
+            b["fresh"], b["got"]))
+    pf = obs["probe_fresh"]
+    for k, o in sorted(obs["probe"].items(), key=lambda kv: int(kv[0])):
+        if not _same(o, pf):
+            out.append(_pfinding(f"{name}: the probe matrix (kept by the caller) evaluated after {k} throw-away matrices differs from a "
+                                 "fresh object's output for it", pf, o))
+            break
+    return out
+
+
 def nontrivial(case, obs):
+    if case["kind"] == "ctor":
+        return "ok" in obs["seq"]["out3"] and bool(case["between"])
+    if case["kind"] == "stream":
+        return obs["n_ok"] >= 50 and obs["n_distinct"] >= 25
     if case["kind"] != "hist":
         return True
     ok = {i for i, o in zip(obs["seq"], obs["outs"]) if "ok" in o}
@@ -1159,7 +1573,24 @@ def nontrivial(case, obs):
 def tags(case, obs):
     kind = case["kind"]
     t = [kind]
-    if kind in ("hist", "exh"):
+    if kind == "ctor":
+        seq = obs["seq"]
+        t.append("ctor:" + ("A," if case["first"] else "") + ",".join("B" if b["via"] == "new" else "A.copy(B)" for b in case["between"]) + ",A")
+        t.append("ctor-last-object:" + ("pipeline-step" if case.get("wrap") else "alone"))
+        t.append("ctor-parameters:" + ("defaults-left:%d" % len(obs["ref"]["declared"]) if _ctor_kw(case["spec"]) is not None else "all-given"))
+        if any(b["out"] is not None and not _same(b["out"], obs["ref"]["out"]) for b in seq["between"]):
+            t.append("ctor:other-parameters-change-the-output")
+        if any(b["params"] != obs["ref"]["params"] for b in seq["between"]):
+            t.append("ctor:other-parameters-differ")
+        t.append("ctor-last-call:" + ("ok" if "ok" in seq["out3"] else "raised"))
+    if kind == "stream":
+        t.append("stream-drop:" + case["drop"])
+        t.append("stream-shape:" + ("fixed" if case.get("shape") else "varying"))
+        t.append("stream-matrices:%d+" % (obs["n"] // 100 * 100))
+        t.append("stream-op:" + (case["spec"].get("op", "evaluate") if case["spec"]["k"] == "pipe" else "single-object"))
+        for e in obs["errs"]:
+            t.append("exc:" + e)
+    if kind in ("hist", "exh", "ctor", "stream"):
         t.append("family:" + spec_family(case["spec"]))
         t.append("class:" + (spec_name(case["spec"]).split("(")[0]))
     if kind == "hist":
